@@ -483,3 +483,56 @@ Lemma gen_em_step x td tr log :
              vdiv (em_data o) (vmaxc eps (em_A o x)); em_data o; em_sens o] (log ++ [em_one eps o x])).
 Proof. symexec. Qed.
 End GenOSMLEM.
+
+(* ============== other valuations of the configuration tests (same source functions) ==============
+   projection=None (the projection statement disappears: the model with proj = identity) and
+   callback_loop='inner' (the callback moves into the inner loop). *)
+Lemma gen_lw_noproj_pre : landweber_noproj_pre = landweber_pre.
+Proof. reflexivity. Qed.
+Lemma gen_lw_noproj_body (A : Rvec -> Rvec) (Dadj : Rvec -> Rvec -> Rvec) (omega : R) (junk : string -> Rvec)
+  (rhs : Rvec) (f : Rvec * (Rvec * Rvec)) (log : list Rvec) :
+  body_step (lw_I A Dadj (fun v => v) omega junk) landweber_noproj_body (mk_hst env_lw (lw_enc rhs f) log)
+  = Some (mk_hst env_lw (lw_enc rhs (lw_full_step A Dadj (fun v => v) omega rhs f))
+            (log ++ [fst (lw_full_step A Dadj (fun v => v) omega rhs f)])).
+Proof. destruct f as [x [tr td]]. symexec. Qed.
+Lemma gen_lw_noproj_run (A : Rvec -> Rvec) (Dadj : Rvec -> Rvec -> Rvec) (omega : R) (junk : string -> Rvec) n x rhs :
+  exists s, run_prog (lw_I A Dadj (fun v => v) omega junk) landweber_noproj_pre landweber_noproj_body n
+              (mk_hst env_lw_in [x; rhs] []) = Some s
+    /\ deref s "caller.x" = Some (iter n (landweber_step A Dadj (fun v => v) rhs omega) x)
+    /\ h_log s = trace (fun x => x) n (landweber_step A Dadj (fun v => v) rhs omega) x.
+Proof.
+  eexists. split.
+  - unfold run_prog. rewrite gen_lw_noproj_pre, gen_lw_pre. cbn [obind].
+    rewrite (sim_iter env_lw (lw_enc rhs) (fun f => [fst f]) _ _ (gen_lw_noproj_body A Dadj omega junk rhs)),
+      traceL_single. reflexivity.
+  - split.
+    + pose proof (lw_full_fst A Dadj (fun v => v) omega rhs n (x, (junk "tmp_ran", junk "tmp_dom"))) as E.
+      cbn [fst] in E. rewrite <- E. reflexivity.
+    + cbn [h_log app]. rewrite lw_full_trace. reflexivity.
+Qed.
+
+Lemma gen_kz_noproj_step (o : @kzop R) (junk : string -> Rvec) x td t log :
+  body_step (kz_I (fun v => v) o junk) kaczmarz_noproj_inner1 (mk_hst kz_env [x; td; kz_rhs o; t] log)
+  = Some (mk_hst (kz_env ++ [("tmp_ran", 3%nat)])%list
+            [kz_one (fun v => v) o x; kz_Dadj o x (vsub (kz_A o x) (kz_rhs o)); kz_rhs o;
+             vsub (kz_A o x) (kz_rhs o)] log).
+Proof. symexec. Qed.
+Lemma gen_variant_shapes :
+  kaczmarz_noproj_outer = [OFor "i" kaczmarz_noproj_inner1; OStmt (Callback "x")]
+  /\ kaczmarz_cbinner_outer = [OFor "i" kaczmarz_cbinner_inner1]
+  /\ kaczmarz_cbinner_inner1 = (kaczmarz_inner1 ++ [Callback "x"])%list
+  /\ adupdates_cbinner_outer = [OFor "i" adupdates_cbinner_inner1; OFor "j" adupdates_cbinner_inner2]
+  /\ adupdates_cbinner_inner1 = adupdates_inner1
+  /\ adupdates_cbinner_inner2 = (adupdates_inner2 ++ [Callback "x"])%list.
+Proof. repeat split. Qed.
+(* callback_loop='inner': the callback sees x after the per-index step *)
+Lemma gen_kz_cbinner_step (proj : Rvec -> Rvec) (o : @kzop R) (junk : string -> Rvec) x td t log :
+  option_map h_log (body_step (kz_I proj o junk) kaczmarz_cbinner_inner1 (mk_hst kz_env [x; td; kz_rhs o; t] log))
+  = Some (log ++ [kz_one proj o x])%list.
+Proof. symexec. Qed.
+Lemma gen_adup_cbinner_step (stepsize : R) (o : @adop R) (junk : string -> Rvec) x d t log :
+  ad_inner_v o = None ->
+  option_map h_log (body_step (adup_I stepsize o junk) adupdates_cbinner_inner2
+    (mk_hst [("x", 0%nat); ("duals[j]", 1%nat); ("tmp_rans[L[j].range]", 2%nat)] [x; d; t] log))
+  = Some (log ++ [adup_x1 stepsize o x d])%list.
+Proof. intros Hs. unfold adup_x1, ad_arg. rewrite Hs. symexec. Qed.
